@@ -21,7 +21,10 @@ ID = "C17"
 LEVEL = "fault_enumeration"
 RULE = ("Pre-write failures: yaml-set (unmatched --mustexist path, failed "
         "--check, --format int with text, --saveto with several matches, "
-        "invalid YAML input) and yaml-merge (MergeException, anchor conflict "
+        "invalid YAML input, and changes that only fail when the document is "
+        "serialized: an anchor name the emitter rejects, a tag on an int, a "
+        "folded value ending in a blank, JSON with a self-alias or a date "
+        "key) and yaml-merge (MergeException, anchor conflict "
         "under stop, unreadable / invalid second input, existing --output, "
         "--overwrite with --backup and a failing merge) over a pool of "
         "documents, with and without a stale .bak: exit != 0, directory "
@@ -178,6 +181,26 @@ def prewrite_cases(res, tmp):
                 ("yaml-merge", "invalid-rhs", doc, ext, ["RHS:a: [1\n"]),
                 ("yaml-merge", "missing-rhs", doc, ext, ["RHSFILE:nofile"]),
             ]
+    # changes that are only found impossible when the document is
+    # serialized: nothing may have been touched by then (a crash is C16's
+    # business; here only the files count)
+    for doc, ext in ((DOCS[0], ".yaml"), (DOCS[2], ".yaml")):
+        cases += [
+            ("yaml-set", "unserializable:anchor-name", doc, ext,
+             ["--change", "/b", "--aliasof", "/a", "--anchor", "x,y"]),
+            ("yaml-set", "unserializable:tagged-int", doc, ext,
+             ["--change", "/a", "--value", "5", "--tag", "!t"]),
+            ("yaml-set", "unserializable:folded-trailing-blank", doc, ext,
+             ["--change", "/a", "--value", "trail ", "--format", "folded"]),
+        ]
+    cases += [
+        ("yaml-set", "unserializable:json-self-alias",
+         '{"a": {"b": 1}, "c": 2}\n', ".json",
+         ["--change", "/a/b", "--aliasof", "/a"]),
+        ("yaml-set", "unserializable:json-date-key",
+         "{2001-01-01: 10, b: 2}\n", ".json",
+         ["--change", "/b", "--value", "3"]),
+    ]
     for tool, cause, doc, ext, extra in cases:
         for stale in (False, True):
             for backup in (False, True):
@@ -210,6 +233,10 @@ def prewrite_cases(res, tmp):
                     res.fail({"clause": "terminates", "tool": tool}, case, "")
                     continue
                 after = listing(d)
+                if cause.startswith("unserializable") and \
+                        out.exc is not None:
+                    out.code = 1        # an uncaught exception exits 1
+                    out.exc = None
                 if out.exc is not None:
                     etype, frame, _ = exc_site(out.exc)
                     res.fail({"clause": "failure-is-reported-not-crashed",
